@@ -25,6 +25,9 @@ type D struct {
 	// CallIdentity makes call results render with their register name, so that
 	// two calls of the same function are different values.
 	CallIdentity bool
+	// LoadVal, when non-nil, resolves a load of a reassigned local to the value
+	// last stored to it on the current path.
+	LoadVal func(*ssa.UnOp) ssa.Value
 	depth        int
 	inLit        map[*ssa.Alloc]bool
 }
@@ -47,6 +50,11 @@ func (d *D) Of(v ssa.Value) string {
 	case *ssa.Parameter:
 		return x.Name()
 	case *ssa.FreeVar:
+		if b := freeVarBinding(x); b != nil {
+			if _, isAlloc := b.(*ssa.Alloc); !isAlloc {
+				return d.Of(b)
+			}
+		}
 		return x.Name()
 	case *ssa.Const:
 		if n := d.P.ConstName(x); n != "" {
@@ -191,11 +199,29 @@ func (d *D) load(x *ssa.UnOp) string {
 		if lit := d.structLit(a); lit != "" {
 			return lit
 		}
+		if d.LoadVal != nil {
+			if sv := d.LoadVal(x); sv != nil {
+				return d.Of(sv)
+			}
+		}
+		if d.CallIdentity {
+			// a reassigned local: two loads are different values
+			return allocName(a) + "@" + x.Name()
+		}
 		return allocName(a)
 	case *ssa.FieldAddr, *ssa.IndexAddr:
 		return d.Of(a)
 	case *ssa.FreeVar:
-		// captured variable: try to find single store in the defining function
+		// captured variable: when the enclosing function assigns it exactly once
+		// it is that value; otherwise it may be reassigned
+		if b, ok := freeVarBinding(a).(*ssa.Alloc); ok {
+			if sv := SingleStore(b); sv != nil {
+				return d.Of(sv)
+			}
+		}
+		if d.CallIdentity {
+			return a.Name() + "@" + x.Name()
+		}
 		return a.Name()
 	case *ssa.Global:
 		return Short(globalName(a))
@@ -364,6 +390,9 @@ func (d *D) binop(x *ssa.BinOp) string {
 	case token.GEQ:
 		return "(" + b + "<=" + a + ")"
 	case token.ADD, token.MUL, token.AND, token.OR, token.XOR:
+		if bt, ok := x.X.Type().Underlying().(*types.Basic); ok && bt.Info()&types.IsString != 0 {
+			break // string concatenation is not commutative
+		}
 		if isConst(x.X) && !isConst(x.Y) {
 			a, b = b, a
 		}
@@ -547,4 +576,31 @@ func (d *D) arrayLit(a *ssa.Alloc) string {
 		}
 	}
 	return "[" + strings.Join(elems, ",") + "]"
+}
+
+// freeVarBinding returns what the enclosing function binds to a closure's
+// free variable (the captured variable's cell, or the captured value).
+func freeVarBinding(fv *ssa.FreeVar) ssa.Value {
+	fn := fv.Parent()
+	par := fn.Parent()
+	if par == nil {
+		return nil
+	}
+	idx := -1
+	for i, f := range fn.FreeVars {
+		if f == fv {
+			idx = i
+		}
+	}
+	if idx < 0 {
+		return nil
+	}
+	for _, b := range par.Blocks {
+		for _, ins := range b.Instrs {
+			if mc, ok := ins.(*ssa.MakeClosure); ok && mc.Fn == fn && idx < len(mc.Bindings) {
+				return mc.Bindings[idx]
+			}
+		}
+	}
+	return nil
 }
